@@ -826,18 +826,24 @@ def check_C13(tier):
     def st(x):
         return "{" + ", ".join(map(str, x)) + "}"
     gcfg = ("INIT GridInit\nNEXT GridNext\nCONSTANTS\n  Times = %s\n  Incs = %s\n  MovesToGo = %s\n  Phases = {0, 12, 24}\n  Opps = {0, 1, 2}\n"
-            '  TraceFile = "none"\nINVARIANT GridObs\nCHECK_DEADLOCK FALSE\n' % (st(times), st(incs), st(mtg)))
+            '  NRand = 0\n  RandSeed = 0\n  TraceFile = "none"\nINVARIANT GridObs\nCHECK_DEADLOCK FALSE\n' % (st(times), st(incs), st(mtg)))
     ga = vlib.tlc("TimeControl", gcfg, workers=4, tag="tc-grid")
     ck.add_tlc(ga)
+    # ... and pseudo-random points between the grid lines (narrow parameter regions: the factor switch at 100 ms, moves-to-go 1
+    # with an increment larger than the clock, ...)
+    rcfg = ("INIT RandInit\nNEXT GridNext\nCONSTANTS\n  Times = {}\n  Incs = {}\n  MovesToGo = {}\n  Phases = {}\n  Opps = {}\n"
+            '  NRand = %d\n  RandSeed = %d\n  TraceFile = "none"\nINVARIANT GridObs\nCHECK_DEADLOCK FALSE\n' % (4000 if quick else 60000, SEED))
+    ra = vlib.tlc("TimeControl", rcfg, workers=4, tag="tc-rand")
+    ck.add_tlc(ra)
     run = vlib.scratch("tc")
     try:
         tf = os.path.join(run, "tc.ndjson")
-        vlib.run_driver(["timectl", "-grid", vlib.art_out(ga), "-trace", tf], cwd=run)
+        vlib.run_driver(["timectl", "-grid", vlib.art_out(ga) + "," + vlib.art_out(ra), "-trace", tf], cwd=run)
         trace = open(tf).read()
     finally:
         shutil.rmtree(run, ignore_errors=True)
     lines = trace.splitlines()
-    tcfg = ('INIT TraceInit\nNEXT TraceNext\nCONSTANTS\n  Times = {}\n  Incs = {}\n  MovesToGo = {}\n  Phases = {}\n  Opps = {}\n'
+    tcfg = ('INIT TraceInit\nNEXT TraceNext\nCONSTANTS\n  Times = {}\n  Incs = {}\n  MovesToGo = {}\n  Phases = {}\n  Opps = {}\n  NRand = 0\n  RandSeed = 0\n'
             '  TraceFile = "trace.ndjson"\nINVARIANT BadObs\nPOSTCONDITION TraceAccepted\nCHECK_DEADLOCK FALSE\n')
     ta = vlib.tlc("TimeControl", tcfg, files={"trace.ndjson": trace}, workers=1, tag="tc-trace", cache=False)
     tst = vlib.art_stats(ta)
@@ -1197,6 +1203,9 @@ def life_scripts(tier, rng):
         ("time-then-time", [st("time", ms=40), wait, st("time", ms=40), wait]),
         ("stop-idle", [stop, iss, st("depth", depth=1), wait, stop]),
         ("housekeeping-while-searching", [st("inf"), {"op": "isready"}, {"op": "clearhash"}, {"op": "resize"}, iss, stop]),
+        ("resize-refused-then-isready", [st("inf"), sl_(5), {"op": "resize"}, {"op": "isready"}, sl_(10), {"op": "isready"}, iss, stop,
+                                         st("depth", depth=2), wait]),
+        ("resize-refused-then-isready-ponder", [st("ponder", ms=300), {"op": "resize"}, {"op": "isready"}, hit, wait]),
     ]
     scripts = []
     for name, calls in named:
